@@ -335,7 +335,7 @@ def first_match_rule(rep, prog, cfg):
                         elem = {x for x in leaves if x[0] == "call" and x[1] in nexts}
                         if elem:
                             for bb2, t2 in fb.calls():
-                                if any(n.endswith("PartialEq::eq") or n.endswith("::eq") for n in callee_names(t2)) and len(t2["args"]) == 2:
+                                if any(n.endswith(("PartialEq::eq", "::eq", "PartialEq::ne", "::ne")) for n in callee_names(t2)) and len(t2["args"]) == 2:
                                     for a in t2["args"]:
                                         la, _ = fl.sources([op_local(a)] if op_local(a) is not None else [], through_call=identity_through, follow_mut=False)
                                         if elem & la:
